@@ -5,6 +5,10 @@ __CPROVER_requires(S_CTX_PRE && S_ARG_PRE && aio == AIO_A && VP_NO_LOCK_HELD)
 __CPROVER_requires(X_MSGS_PRE)
 __CPROVER_requires(MSG_PRE(NEWMSG) && NEWMSG->m_refcnt.v < 1000 && CH_GHOST_PRE(&NEWMSG->m_body))
 __CPROVER_requires(REQ_ID_INV(C1))
+/* C15: the recv poll descriptor mirrors "the socket's own context holds an unread reply" (C1 is that context) */
+#if REQ_CM == 1
+__CPROVER_requires(g_pollr == (C1->rep_msg != NULL))
+#endif
 __CPROVER_assigns(X_CTX_ASSIGNS, VPY_GHOSTS)
 __CPROVER_assigns(C1->req_len, C1->req_retry, C1->retry_time, SOCK->retry_active, AIO_A->a_msg, AIO_A->a_count, NEWMSG->m_header_len, NEWMSG->m_header_buf, NEWMSG->m_refcnt)
 X_RESET_FREES
@@ -63,6 +67,14 @@ __CPROVER_ensures((g_idm_key != (uint64_t) OLD(C1->request_id) && !(!S_CLOSED &&
 __CPROVER_ensures(!S_CLOSED ==> (C1->rep_msg == NULL && !C1->conn_reset && C1->recv_aio == NULL && X_OFF_PIPE && g_rr.idm_alloc_calls == OLD(g_rr.idm_alloc_calls) + 1))
 /* the context and the id map agree, whatever happened */
 __CPROVER_ensures(REQ_ID_INV(C1))
+/* C15: ... and still does: a reply discarded by the new request must lower the descriptor (else it polls readable
+ * while a non-blocking receive answers NNG_EAGAIN) */
+#if REQ_CM == 1
+__CPROVER_ensures(g_pollr == (C1->rep_msg != NULL))
+#else
+/* any other context: the socket's descriptor is none of its business */
+__CPROVER_ensures(g_pollr == OLD(g_pollr))
+#endif
 /* ---- id allocation fails (C20): NNG_ENOMEM, lock released, the message stays with the caller untouched, the
  * context is idle (no request), nothing queued, nothing armed ---- */
 __CPROVER_ensures(S_NOMEM ==> (FIN_ONCE(FIN_A, NNG_ENOMEM, OLD(NEWMSG)) && NEWMSG == OLD(NEWMSG) && NEWMSG->m_refcnt.v == OLD(NEWMSG->m_refcnt.v) && NEWMSG->m_header_len == OLD(NEWMSG->m_header_len)
